@@ -504,6 +504,13 @@ class ASTRewriter(ast.NodeTransformer):
         if node.func.id == "print":
             return None
 
+        if node.keywords and node.func.id in [
+            "range", "len", "sum", "ord", "chr", "any", "all", "min", "max",
+        ]:
+            raise Exception(
+                f"{node.func.id}() does not support keyword arguments here"
+            )
+
         elif node.func.id == "range":
             return self.__call_range(node)
 
